@@ -333,5 +333,26 @@ fn main() {
         let ops: Vec<Value> = (0..4).map(|_| rnd_op(&mut rng, lo, hi, smax)).collect();
         run_case(&mut rec, &json!({"pbox": pbox, "native": (k % 2) as i32, "layers": layers, "ops": ops}));
     }
+    // parents and clip areas at the very top / left of the coordinate range (rows and columns i32::MIN): clipped layers only
+    // (a translated or cropped box would not be representable there)
+    {
+        const M: i64 = i32::MIN as i64;
+        for native in [1, 0] {
+            run_case(&mut rec, &json!({"pbox": [-5, M, 12, 6], "native": native, "layers": [{"k":"cl","a":[-3, M, 8, 4]}], "ops": [
+                {"m":"draw_iter","area":[0,0,0,0],"color":-1,"colors":[],"px":[[0,M,7],[1,M,8],[9,M,5],[2,M + 1,9],[2,M + 5,4],[3,M,6]]},
+                {"m":"fill_solid","area":[-4,M,3,2],"color":3,"colors":[],"px":[]},
+                {"m":"fill_contiguous","area":[-4,M,3,2],"color":-1,"colors":[1,2,3,4,5,6],"px":[]},
+                {"m":"draw_iter","area":[0,0,0,0],"color":-1,"colors":[],"px":[[4,M,1],[4,M + 1,2]]},
+                {"m":"clear","area":[0,0,0,0],"color":2,"colors":[],"px":[]}]}));
+            run_case(&mut rec, &json!({"pbox": [M, M, 6, 6], "native": native, "layers": [{"k":"cl","a":[M, M, 3, 3]}], "ops": [
+                {"m":"draw_iter","area":[0,0,0,0],"color":-1,"colors":[],"px":[[M,M,7],[M + 1,M,8],[M + 3,M,5],[M + 1,M + 1,9]]},
+                {"m":"fill_contiguous","area":[M,M,2,2],"color":-1,"colors":[1,2,3,4],"px":[]},
+                {"m":"fill_contiguous","area":[M,M,4,2],"color":-1,"colors":[1,2,3,4,5,6,7,8],"px":[]},
+                {"m":"fill_solid","area":[M + 1,M,4,4],"color":9,"colors":[],"px":[]}]}));
+            run_case(&mut rec, &json!({"pbox": [M, 3, 6, 6], "native": native, "layers": [{"k":"cl","a":[M, 4, 3, 3]}, {"k":"cl","a":[M + 1, 2, 9, 4]}], "ops": [
+                {"m":"draw_iter","area":[0,0,0,0],"color":-1,"colors":[],"px":[[M,4,7],[M + 1,4,8],[M + 2,5,5],[M + 1,9,9]]},
+                {"m":"fill_contiguous","area":[M,3,3,3],"color":-1,"colors":[1,2,3,4,5,6,7,8,9],"px":[]}]}));
+        }
+    }
     rec.finish(json!({}));
 }
